@@ -222,7 +222,11 @@ def run_impl(ctx, script, payload, timeout=1200, env_extra=None, python=PY):
                        stdout=subprocess.PIPE, stderr=subprocess.PIPE, text=True, env=impl_env(env_extra),
                        cwd=str(ctx.rundir), timeout=timeout)
     if p.returncode != 0:
-        return {"_crash": True, "rc": p.returncode, "stderr": p.stderr[-3000:], "stdout": p.stdout[-1000:]}
+        # the interpreter may die while tearing down solver objects after the results were printed
+        try:
+            return json.loads(p.stdout.strip().splitlines()[-1])
+        except Exception:  # noqa
+            return {"_crash": True, "rc": p.returncode, "stderr": p.stderr[-3000:], "stdout": p.stdout[-1000:]}
     try:
         # last line is the JSON document (library code may print)
         line = p.stdout.strip().splitlines()[-1]
